@@ -98,6 +98,10 @@ pub fn run_check(replay: Option<Value>) -> i32 {
             // mirrored event functions: g'(s, z) = g(-s, z); cos is even, t - c becomes -(s + c)
             cr.events = vec![EventSpec::new(EvKind::Y(0, 0.7 * p.y0[0])), EventSpec::new(EvKind::Cos(2.0)).dir(Direction::Positive), EventSpec::new(EvKind::NegT(-(x0 + 0.37 * span)))];
         }
+        // (dense output on in both runs: it does not change the integration, and the continuous solutions must
+        // be mirror images as well)
+        c.dense = true;
+        cr.dense = true;
         let (a, b) = (run(p, &c), run(&pr, &cr));
         let mut out = CaseOut::default();
         let desc = json!({"key": key, "point": describe(&dims, idx), "cfg": c.json(&p.name)});
@@ -130,6 +134,27 @@ pub fn run_check(replay: Option<Value>) -> i32 {
                     }
                 } else {
                     out.tag("reflection-bitwise-equal");
+                    // the continuous solutions: sol and sol_many between the samples, in integration order
+                    if sa.t.len() >= 2 && sa.sol_span().is_some() && sb.sol_span().is_some() {
+                        let ts: Vec<f64> = sa.t.windows(2).flat_map(|w| [w[0] + 0.3 * (w[1] - w[0]), w[0] + 0.8 * (w[1] - w[0])]).collect();
+                        let tm: Vec<f64> = ts.iter().map(|t| -t).collect();
+                        let close = |u: &[f64], v: &[f64]| if exact_expected { bits_eq(u, v) } else { u.iter().zip(v).all(|(x, y)| (x - y).abs() <= 1e-9 * (1.0 + x.abs())) };
+                        match (sa.sol_many(&ts), sb.sol_many(&tm)) {
+                            (Ok(va), Ok(vb)) => {
+                                if let Some(k) = (0..ts.len()).find(|&k| !close(&va[k], &vb[k])) {
+                                    viol!("reflection-dense", format!("sol_many({:e}) = {:?} but the reflected run gives {:?} at the mirrored time", ts[k], va[k], vb[k]));
+                                }
+                            }
+                            (ra, rb) => viol!("reflection-dense", format!("sol_many between the samples: {:?} for the original run, {:?} for the reflected one", ra.as_ref().map(|v| v.len()), rb.as_ref().map(|v| v.len()))),
+                        }
+                        for k in [0, ts.len() / 2, ts.len() - 1] {
+                            match (sa.sol(ts[k]), sb.sol(tm[k])) {
+                                (Ok(u), Ok(v)) if close(&u, &v) => {}
+                                (u, v) => viol!("reflection-dense", format!("sol({:e}) = {:?}, the reflected run at the mirrored time gives {:?}", ts[k], u, v)),
+                            }
+                        }
+                        out.tag("dense-mirrored");
+                    }
                 }
                 if sa.status != sb.status {
                     viol!("reflection-status", format!("status {:?} vs {:?}", sa.status, sb.status));
@@ -162,6 +187,73 @@ pub fn run_check(replay: Option<Value>) -> i32 {
             }
             _ => viol!("outcome", format!("runs ended with {} / {}", a.outcome_name(), b.outcome_name())),
         }
+        out.sample = Some(desc);
+        Some(out)
+    });
+
+    // (b') the same scaling on long runs of a mildly stiff linear system with the explicit methods: more than a
+    // thousand accepted steps, so that the stiffness detectors come into play (status and all samples must scale)
+    let sdims = vec![dim("method", &["RK23", "DOPRI5", "DOP853"]), dim("rate", &[200.0, 400.0]), dim("direction", &["forward", "backward(reflected)"])];
+    lattice(&mut rep, "scalestiff", &sdims, only.as_deref(), |key, idx| {
+        let m = [Method::RK23, Method::DOPRI5, Method::DOP853][idx[0]];
+        let l = [200.0, 400.0][idx[1]];
+        let p0 = Prob {
+            name: format!("oscillator with a relaxing follower, rate {}", l),
+            n: 3,
+            f: Arc::new(move |_t, y, d| {
+                d[0] = y[1];
+                d[1] = -y[0];
+                d[2] = -l * (y[2] - y[0]);
+            }),
+            jac: None,
+            flow: None,
+            y0: vec![1.0, 0.0, 1.0],
+            linear_homogeneous: true,
+        };
+        let backward = idx[2] == 1;
+        let p = if backward { reflect(&p0) } else { p0 };
+        let xend = if backward { -60.0 } else { 60.0 };
+        let c = Cfg::new(m, 0.0, xend, &p.y0).tol(1e-3, 1e-6);
+        let base_run = run(&p, &c);
+        let mut out = CaseOut::default();
+        let desc = json!({"key": key, "point": describe(&sdims, idx), "cfg": c.json(&p.name)});
+        let sb = match base_run.sol() {
+            Some(s) => s,
+            None => {
+                out.violations.push(Violation::new(key, "outcome", format!("base run ended with {}", base_run.outcome_name()), desc).with("method", mname(m)).with("symmetry", "scaling"));
+                return Some(out);
+            }
+        };
+        out.events = base_run.st.n_ode;
+        if sb.naccpt > 1000 {
+            out.tag("scaling-long-run");
+        }
+        if sb.status == Status::ProbablyStiff {
+            out.tag("scaling-stiffness-detected");
+        }
+        for k in [-500i32, -60, -20, -10, 10, 40, 500] {
+            let f = 2f64.powi(k);
+            let mut cs = c.clone();
+            cs.y0 = c.y0.iter().map(|v| v * f).collect();
+            cs.atol = Tol::S(1e-6 * f);
+            let r = run(&p, &cs);
+            out.events += r.st.n_ode;
+            match r.sol() {
+                Some(s) => {
+                    let same = s.status == sb.status && bits_eq(&s.t, &sb.t) && s.y.len() == sb.y.len() && s.y.iter().zip(&sb.y).all(|(u, v)| u.iter().zip(v).all(|(x, y)| x.to_bits() == (y * f).to_bits())) && stats(s) == stats(sb);
+                    if !same {
+                        out.violations.push(
+                            Violation::new(key, "scaling-bitwise", format!("scaling state and atol by 2^{} changes the run: status {:?} vs {:?}, {} vs {} samples, last time {:?} vs {:?}, stats {:?} vs {:?}", k, s.status, sb.status, s.t.len(), sb.t.len(), s.t.last(), sb.t.last(), stats(s), stats(sb)), desc.clone())
+                                .with("method", mname(m))
+                                .with("symmetry", "scaling"),
+                        );
+                    }
+                    out.validated += 1;
+                }
+                None => out.violations.push(Violation::new(key, "outcome", format!("scaled run ended with {}", r.outcome_name()), desc.clone()).with("method", mname(m)).with("symmetry", "scaling")),
+            }
+        }
+        out.fp = Some(base_run.st.fp.as_u128() ^ 0x51);
         out.sample = Some(desc);
         Some(out)
     });
@@ -415,6 +507,8 @@ pub fn run_check(replay: Option<Value>) -> i32 {
     for t in ["reflection-bitwise-equal", "events-mirrored", "scaling-checked", "tolerance-vector-checked", "copies-checked"] {
         rep.require(t, 20);
     }
+    rep.require("scaling-long-run", 4);
+    rep.require("scaling-stiffness-detected", 1);
     rep.rule = "symmetry generators applied to every lattice point: (a) time reflection z'=-f(-s,z) on [-x0,-xend]: bitwise for explicit methods and implicit ones with the user Jacobian, 1e-6 with the finite-difference Jacobian, events mirrored within 4e-11; (b) state and atol scaled by 2^k, k in {-500,-200,-60,-20,-3,1,10,40,200,500}, on linear homogeneous systems: bitwise; (c) scalar tolerance as constant vector: bitwise; (d) m in {2,3,4,8,16} identical copies, first_step given and automatic: copies bitwise equal inside the run, same naccpt/nrejct and trajectories within 1e-5 of the single system; distinct = distinct RHS fingerprints".into();
     rep.assumptions.push("bitwise equality is only demanded where IEEE arithmetic makes the symmetry exact (negation, powers of two, identical operation sequences)".into());
     rep.finish()
